@@ -105,6 +105,7 @@ LEVEL = {
     "C14": "model_checking",
     "C16": "model_checking",
     "C15": "model_checking",
+    "C05": "model_checking",
     "C17": "model_checking",
     "C11": "model_checking",
     "C18": "model_checking",
@@ -137,6 +138,11 @@ ASSUMPTIONS = {
     "C15": MIRSYM_ASSUMPTIONS + [
         "text (str/String/Path) is a symbolic sequence of Unicode scalars with UTF-8 byte-length arithmetic; slicing panics exactly when the byte index is not a char boundary",
         "only sys::{trim_prefix,trim_suffix,has,has_prefix,has_suffix} are encoded; parse_paths under C18; the component-level helpers are outside the claim",
+    ],
+    "C05": MIRSYM_ASSUMPTIONS + [
+        "the current directory is a symbolic clean absolute text (Memfs: what the read guard's cwd() returns; Stdfs: what Stdfs::cwd() returns)",
+        "path texts are ASCII (to_lowercase in trim_protocol is modelled for ASCII only); environment as for C17",
+        "outside the claim: that every other VFS method resolves its arguments through abs (whole-Memfs statement)",
     ],
     "C17": MIRSYM_ASSUMPTIONS + [
         "environment stub: env::var(NAME) = uninterpreted functions of the name's characters (set?, value chars); values have a fixed length per job, contain no NUL and - for the obligations - no '$'",
